@@ -50,6 +50,20 @@ theorem acc_center (sq : Rat → Rat) (g : Geom) :
   refine ⟨rfl, ?_⟩
   simp only [accNearestCenterIndices, Geom.dim, fdiv_pos _ _ (by decide : (0 : Int) < 2)]
 
+/-- `center_position` (the source: `map_indices_to_reference` of `center_indices`, run on symbols) is the affine at the
+continuous index `(n - 1) / 2` -/
+theorem acc_center_position (sq : Rat → Rat) (g : Geom) : accCenterPosition sq g.entry g.dim = g.centerPosition.toList := by
+  simp only [accCenterPosition, Geom.centerPosition, Geom.posR, Geom.entry, Geom.dim, V3.toList, V3.add, V3.smul,
+    List.cons.injEq, and_true]
+  refine ⟨?_, ?_, ?_⟩ <;> ring
+
+theorem posR_int (g : Geom) (i : I3) : g.posR i.i0 i.i1 i.i2 = g.pos i := rfl
+
+/-- the centre is the midpoint between the first and the last voxel -/
+theorem centerPosition_midpoint (g : Geom) :
+    g.centerPosition = V3.smul (1 / 2) ((g.pos ⟨0, 0, 0⟩).add (g.pos ⟨g.n0 - 1, g.n1 - 1, g.n2 - 1⟩)) := by
+  apply V3.ext' <;> simp [Geom.centerPosition, Geom.posR, Geom.pos, V3.add, V3.smul] <;> ring
+
 /-- `handedness`: the source compares the triple product of the columns with 0 and answers LEFT_HANDED when negative -/
 theorem acc_handedness (g : Geom) :
     accHandednessTest g.entry = g.triple ∧ accHandednessMembers = ("LEFT_HANDED", "RIGHT_HANDED") ∧
